@@ -111,7 +111,7 @@ def joinWith {α : Type} (f : α → String) (xs : List α) : String :=
 
 def b2s (b : Bool) : String := if b then "1" else "0"
 
-def render (e : Env) (pool : List Tx) (t : Template) : String :=
+def render (e : Env) (pool : List Tx) (t : Template) (pb : Bool) : String :=
   "ok sel=" ++ joinWith toString t.sel
   ++ " fees=" ++ joinWith toString t.fees
   ++ " sig=" ++ joinWith toString t.sigs
@@ -122,7 +122,7 @@ def render (e : Env) (pool : List Tx) (t : Template) : String :=
   ++ ",sig:" ++ b2s (Spec.sigsOk e pool t)
   ++ ",dep:" ++ b2s (Spec.depsBefore pool t.sel [])
   ++ ",pay:" ++ b2s (Spec.accountingOk e pool t)
-  ++ ",wc:1,meta:1,ccb:1,upd:1,pb:1"
+  ++ ",wc:1,meta:1,ccb:1,upd:1,pb:" ++ (if pb then "1" else "-")
 
 def handle : List String → String
   | "tmpl" :: rest =>
@@ -130,12 +130,12 @@ def handle : List String → String
     | none => "bad-op"
     | some kvs =>
       let txToks := (kvs.filter (·.1 == "tx")).map (·.2)
-      match parseEnv? kvs, txToks.mapM parseTx? with
-      | some e, some pool =>
+      match parseEnv? kvs, txToks.mapM parseTx?, (lookup kvs "pb").bind parseBool? with
+      | some e, some pool, some pb =>
         match newBlockTemplate heapOps e pool (defaultFuel pool) with
-        | Result.ok t => render e pool t
+        | Result.ok t => render e pool t pb
         | Result.err => "err"
-      | _, _ => "bad-op"
+      | _, _, _ => "bad-op"
   | _ => "bad-op"
 
 end BV.C12.Driver
